@@ -95,7 +95,10 @@ pub fn eval(ctx: &Ctx, case: &Case) {
                 return;
             };
             ctx.trace();
-            let Some(want) = sm9::encrypt_with_r(&g, &ppube, &idb, &msg, &r_used) else { return };
+            let Some(want) = sm9::encrypt_with_r(&g, &ppube, &idb, &msg, &r_used) else {
+                ctx.violation(site, &format!("nonce-with-all-zero-K1-used/{}", lc), format!("r={} mlen={}: K1 is all zero, step A6 requires another r (C2 would equal M)", hexbig(&r_used), msg_len), cj());
+                return;
+            };
             let wb = want.encode();
             if ct != wb {
                 let part = if ct.len() != wb.len() {
@@ -212,6 +215,22 @@ pub fn eval(ctx: &Ctx, case: &Case) {
                             *b = 0;
                         }
                     }
+                    "C1=(0,0)/body-for-w=1" | "C1=(0,0)/body-for-w=0" => {
+                        // forged ciphertext for a decoder that takes the all-zero encoding for the point at infinity:
+                        // the pairing value is then a public constant and K can be computed by anyone
+                        let w = if t.ends_with("=1") { sm9::f12_bytes(&sm9::f12_one()) } else { vec![0u8; 384] };
+                        let mut z = vec![0u8; 64];
+                        z.extend_from_slice(&w);
+                        z.extend_from_slice(&idb);
+                        let k = sm3::kdf(&z, msg.len() + 32);
+                        let (k1, k2) = k.split_at(msg.len());
+                        let c2: Vec<u8> = msg.iter().zip(k1).map(|(a, b)| a ^ b).collect();
+                        let c3 = sm9::mac(k2, &c2);
+                        ct = vec![0x04];
+                        ct.extend_from_slice(&[0u8; 64]);
+                        ct.extend_from_slice(&c3);
+                        ct.extend_from_slice(&c2);
+                    }
                     "C1-x>=p" => {
                         for b in &mut ct[1..33] {
                             *b = 0xff;
@@ -262,7 +281,7 @@ pub const ANNEX_R: &str = "0000AAC0541779C8FC45E3E2CB25C12B5D2576B2129AE8BB5EE2C
 pub fn run(ctx: &Arc<Ctx>) {
     refmodels::selftest::run(&["sm3", "sm9"]).unwrap_or_else(|e| ctx.machinery_error(format!("reference self-test failed: {}", e)));
     let n = sm9::params().n.clone();
-    ctx.set_rule("encryption: every message length 1..=255 with one (master, identity, r); masters {Annex ke, N-2, seeded} x identities {Bob,'',seeded} x nonces {1,2,N-2,Annex r,2^255+1,seeded} at length 20; the GM/T 0044.5 example: ciphertext = reference C1||C3||C2 byte for byte for the accepted r (MAC = SM3(C2||K2)), library and reference decryptors recover M. Decryption of reference-made ciphertexts (lengths {1,20}, thorough +{32,255}): untouched must decrypt; every single-bit flip, every truncation, extension, over-long bodies, other identity, foreign tags, C1 off-curve with the original body and with the body recomputed for the foreign point (invalid-curve attack, using the library's own pairing), (0,0), unreduced coordinates (all-ones and the v+p aliases of the same point over 12 further nonces), another valid point: all must be refused with an error, never a plaintext, never a panic.");
+    ctx.set_rule("encryption: every message length 1..=255 with one (master, identity, r); masters {Annex ke, N-2, seeded} x identities {Bob,'',seeded} x nonces {1,2,N-2,Annex r,2^255+1,seeded} at length 20; the GM/T 0044.5 example, nonces crafted so that K1 is all zero (step A6 retry): ciphertext = reference C1||C3||C2 byte for byte for the accepted r (MAC = SM3(C2||K2)), library and reference decryptors recover M. Decryption of reference-made ciphertexts (lengths {1,20}, thorough +{32,255}): untouched must decrypt; every single-bit flip, every truncation, extension, over-long bodies, other identity, foreign tags, C1 off-curve with the original body and with the body recomputed for the foreign point (invalid-curve attack, using the library's own pairing), (0,0) with the original body and with bodies forged for a constant pairing value, unreduced coordinates (all-ones and the v+p aliases of the same point over 12 further nonces), another valid point: all must be refused with an error, never a plaintext, never a panic.");
     let mut g = SplitMix::new(ctx.seed, "c10");
     let mut cases: Vec<Case> = Vec::new();
     cases.push(Case::Enc { ke: ANNEX_KE.into(), id: "Bob".into(), msg_len: 20, r: ANNEX_R.into(), tag: "annex-example".into() });
@@ -283,13 +302,42 @@ pub fn run(ctx: &Arc<Ctx>) {
             }
         }
     }
+    // nonces whose K1 is all zero for a 1-byte message: step A6 must go back and draw another r
+    {
+        let ke = hb(ANNEX_KE);
+        let (ppube, gg) = master(&ke);
+        let q = sm9::enc_q(&ppube, b"Bob", sm9::HID_ENC);
+        let mut r = g.nonzero_below(&(&n - (BigUint::one() << 40usize))) | BigUint::one();
+        let mut c1 = sm9::g1_mul(&r, &q);
+        let mut w = sm9::f12_pow(&gg, &r);
+        let mut found = 0;
+        for _ in 0..4096 {
+            let mut z = sm9::g1_bytes(&c1).to_vec();
+            z.extend_from_slice(&sm9::f12_bytes(&w));
+            z.extend_from_slice(b"Bob");
+            if sm3::kdf(&z, 1)[0] == 0 {
+                cases.push(Case::Enc { ke: ANNEX_KE.into(), id: "Bob".into(), msg_len: 1, r: hexbig(&r), tag: "nonce-with-all-zero-K1".into() });
+                found += 1;
+                if found == 2 {
+                    break;
+                }
+            }
+            // r += 2 keeps the low limb non-zero (the library's sampler refuses candidates whose low limb is 0)
+            r += 2u32;
+            c1 = sm9::g1_add(&sm9::g1_add(&c1, &q), &q);
+            w = sm9::f12_mul(&sm9::f12_mul(&w, &gg), &gg);
+        }
+        if found == 0 {
+            ctx.machinery_error("no nonce with all-zero K1 found");
+        }
+    }
     let dlens: Vec<usize> = ctx.tier.pick(vec![1, 20], vec![1, 20, 32, 255]);
     for (bi, l) in dlens.iter().enumerate() {
         let (_, ke) = &masters[bi % masters.len()];
         let id = ["Bob", "len:40"][bi % 2];
         let r = hexbig(&rs[(bi + 3) % rs.len()].1);
         let total = 97 + l;
-        let mut tampers: Vec<String> = vec!["none", "extended", "mlen-256", "mlen-300", "other-identity", "C1-off-curve(y+1)/orig-body", "C1-off-curve(y+1)/invalid-curve-completed", "C1-off-curve(random)/invalid-curve-completed", "C1=(0,0)", "C1-x>=p", "C1-x+p-alias", "C1-y+p-alias", "C1-other-valid-point", "tag=02", "tag=00"].iter().map(|s| s.to_string()).collect();
+        let mut tampers: Vec<String> = vec!["none", "extended", "mlen-256", "mlen-300", "other-identity", "C1-off-curve(y+1)/orig-body", "C1-off-curve(y+1)/invalid-curve-completed", "C1-off-curve(random)/invalid-curve-completed", "C1=(0,0)", "C1=(0,0)/body-for-w=1", "C1=(0,0)/body-for-w=0", "C1-x>=p", "C1-x+p-alias", "C1-y+p-alias", "C1-other-valid-point", "tag=02", "tag=00"].iter().map(|s| s.to_string()).collect();
         for b in 0..total * 8 {
             tampers.push(format!("bit:{}", b));
         }
